@@ -337,7 +337,7 @@ type vfHistEntry struct {
 
 var (
 	vfHistMu   sync.Mutex
-	vfHistRing [3]vfHistEntry
+	vfHistRing [7]vfHistEntry
 	vfHistN    int
 )
 
@@ -411,7 +411,7 @@ func vfJournal(prop, sub string, c any) {
 	if err != nil {
 		return
 	}
-	b, _ := ejson.Marshal(vfFailFile{Property: prop, Sub: sub, Case: cb, Error: "process died while running this case (journal)", History: vfHistBefore(sub)})
+	b, _ := ejson.Marshal(vfFailFile{Property: prop, Sub: sub, Case: cb, Error: "process died while running this case (journal)"})
 	vfJournalMu.Lock()
 	defer vfJournalMu.Unlock()
 	if vfJournalF == nil {
@@ -759,6 +759,16 @@ func vfDetectAt(in []byte, limit uint32) *MIME {
 	SetLimit(limit)
 	defer SetLimit(defaultLimit)
 	return Detect(in)
+}
+
+// vfReaderAfter runs DetectReader(x) under `limit` immediately after another reader detection
+// under `prev` (a limit history: per-call buffers or sizes that survive a call meet a new limit).
+func vfReaderAfter(prev, limit uint32, x []byte) (*MIME, error) {
+	defer SetLimit(defaultLimit)
+	SetLimit(prev)
+	_, _ = DetectReader(bytes.NewReader(x[:min(len(x), 48)]))
+	SetLimit(limit)
+	return DetectReader(bytes.NewReader(x))
 }
 
 // vfHeader is the part of the input that detection is allowed to examine.
